@@ -1,0 +1,5 @@
+//go:build !verif
+
+package sync
+
+func verifYield(string) {}
